@@ -167,10 +167,12 @@ def run_prop(st, label, prop, *args):
                 v = m.eval(px.cond, model_completion=True)
                 if z3.is_true(v) != (k > 0):
                     bad.append((st.keys.index(k), k, " ".join(px.cond.sexpr().split())[:200]))
-            rawbad = [" ".join(c.sexpr().split())[:200] for c in st.ex.raw_done.values()
+            rawbad = [(" ".join(c.sexpr().split())[:3000], c.get_id() in st.raw_ok, c.get_id() in st.raw_seen,
+                       [(str(d), str(m[d])) for d in m.decls() if str(d) in " ".join(c.sexpr().split())])
+                      for c in st.ex.raw_done.values()
                       if not z3.is_true(m.eval(c, model_completion=True))]
             diag = {"lits": len(st.keys), "preloaded": st.n_preloaded, "bad_lits": bad[:5], "bad_raw": rawbad[:5],
-                    "recheck": str(st._check()), "cond": " ".join(cond.sexpr().split())[:1500] if hasattr(cond, "sexpr") else repr(cond)}
+                    "recheck": str(st._check()), "model_valid": st.model_valid, "model_src": getattr(st, "model_src", "stored"), "cond": " ".join(cond.sexpr().split())[:1500] if hasattr(cond, "sexpr") else repr(cond)}
         col.mismatch.append({"label": label, "args": _safe_enc(cargs), "symbolic": bool(sym_val),
                              "native": repr(nat), "diag": diag})
     else:
